@@ -500,3 +500,84 @@ Theorem C07_lexical_algorithm_is_source :
 Proof. exact (@LexAlgSrc4.lexical_algorithm_is_translated_source). Qed.
 Print Assumptions C07_lexical_algorithm_is_source.
 
+From Coq Require Import String ZArith Lia ZifyBool ZifyNat ZifyN.
+From SJ Require Import Base.Bytes Base.FloatB Gen.Tables Model.Read Model.Num Model.NumF32 Model.NumParseAst Model.NumFrAst Gen.NumFrTables
+  Proofs.NumInt Proofs.NumParseSrc Proofs.LexF32Glue Proofs.NumFrSrc.
+From Flocq Require Import Core BinarySingleNaN.
+From SJ Require Import Proofs.NumFrSrc2.
+Local Open Scope string_scope.
+Local Open Scope list_scope.
+Theorem C07_long_literal_paths_are_source : forall (E : env), float_roundtrip (cf E) = true ->
+  forall (positive : bool) (s : st) (fuel : nat),
+  (forall zs pe k, (length (rest s) + 4 <= fuel)%nat ->
+     xrun fuel E false NUMFR "parse_exponent_overflow" [XV (VB positive); XV (VB zs); XV (VB pe)] s k =
+     liftS k (Num.parse_exponent_overflow E positive zs pe s)) /\
+  (forall sig e k, (sig <= u64_max)%N -> (3 <= fuel)%nat ->
+     xrun fuel E false NUMFR "f64_from_parts" [XV (VB positive); XV (VInt U64 (Z.of_N sig)); XV (VInt I32 e)] s k =
+     liftS k (Num.f64_from_parts E positive sig e s)) /\
+  (forall integer fraction e, (3 <= fuel)%nat ->
+     xrun fuel E false NUMFR "f64_long_from_parts" [XV (VB positive); XV (VInt Usize (Z.of_nat (length integer))); XV (VInt I32 e)] s
+       (integer ++ fraction) =
+     liftS (integer ++ fraction) (Num.f64_long_from_parts E positive integer fraction e s)) /\
+  (forall integer fraction, (length (rest s) + 16 <= fuel)%nat ->
+     xrun fuel E false NUMFR "parse_long_exponent" [XV (VB positive); XV (VInt Usize (Z.of_nat (length integer)))] s (integer ++ fraction) =
+     liftS (integer ++ fraction) (Num.parse_long_exponent E positive integer fraction s)) /\
+  (forall integer fraction0, Z.of_nat (length integer + length fraction0 + length (rest s)) <= 18446744073709551615 ->
+     (length (rest s) + 30 <= fuel)%nat ->
+     xrun fuel E false NUMFR "parse_long_decimal" [XV (VB positive); XV (VInt Usize (Z.of_nat (length integer)))] s (integer ++ fraction0) =
+     liftS ((integer ++ fraction0) ++ firstn (span_len is_digit (rest s)) (rest s)) (Num.parse_long_decimal E positive integer fraction0 s)) /\
+  (forall sig k, (sig <= u64_max)%N -> Z.of_nat (length (rest s)) <= isize_max -> (length (rest s) + 44 <= fuel)%nat ->
+     observe (xrun fuel E false NUMFR "parse_long_integer" [XV (VB positive); XV (VInt U64 (Z.of_N sig))] s k) =
+     liftX (Num.parse_long_integer E positive sig s)) /\
+  (forall sig e k, (sig <= u64_max)%N -> -2147483648 < e <= 0 -> Z.of_nat (length (rest s)) <= isize_max ->
+     (length (rest s) + 34 <= fuel)%nat ->
+     observe (xrun fuel E false NUMFR "parse_decimal_overflow" [XV (VB positive); XV (VInt U64 (Z.of_N sig)); XV (VInt I32 e)] s k) =
+     liftX (Num.parse_decimal_overflow E positive sig e s)).
+Proof. exact (@NumFrSrc2.numfr_model_is_translated_source). Qed.
+Print Assumptions C07_long_literal_paths_are_source.
+
+Theorem C07_long_literal_paths_f32_are_source : forall (E : env) (positive : bool) (s : st) (fuel : nat),
+  (forall zs pe k, (length (rest s) + 4 <= fuel)%nat ->
+     xrun fuel E true NUMFR "parse_exponent_overflow" [XV (VB positive); XV (VB zs); XV (VB pe)] s k =
+     liftS k (Num.parse_exponent_overflow E positive zs pe s)) /\
+  (forall sig e k, (sig <= u64_max)%N -> (3 <= fuel)%nat ->
+     xrun fuel E true NUMFR "f64_from_parts" [XV (VB positive); XV (VInt U64 (Z.of_N sig)); XV (VInt I32 e)] s k =
+     liftS k (f64_from_parts_s E positive sig e s)) /\
+  (forall integer fraction e, (3 <= fuel)%nat ->
+     xrun fuel E true NUMFR "f64_long_from_parts" [XV (VB positive); XV (VInt Usize (Z.of_nat (length integer))); XV (VInt I32 e)] s
+       (integer ++ fraction) =
+     liftS (integer ++ fraction) (f64_long_from_parts_s E positive integer fraction e s)) /\
+  (forall integer fraction, (length (rest s) + 16 <= fuel)%nat ->
+     xrun fuel E true NUMFR "parse_long_exponent" [XV (VB positive); XV (VInt Usize (Z.of_nat (length integer)))] s (integer ++ fraction) =
+     liftS (integer ++ fraction) (parse_long_exponent_s E positive integer fraction s)) /\
+  (forall integer fraction0, Z.of_nat (length integer + length fraction0 + length (rest s)) <= 18446744073709551615 ->
+     (length (rest s) + 30 <= fuel)%nat ->
+     xrun fuel E true NUMFR "parse_long_decimal" [XV (VB positive); XV (VInt Usize (Z.of_nat (length integer)))] s (integer ++ fraction0) =
+     liftS ((integer ++ fraction0) ++ firstn (span_len is_digit (rest s)) (rest s)) (parse_long_decimal_s E positive integer fraction0 s)) /\
+  (forall sig k, (sig <= u64_max)%N -> Z.of_nat (length (rest s)) <= isize_max -> (length (rest s) + 44 <= fuel)%nat ->
+     observe (xrun fuel E true NUMFR "parse_long_integer" [XV (VB positive); XV (VInt U64 (Z.of_N sig))] s k) =
+     liftX (parse_long_integer_s E positive sig s)) /\
+  (forall sig e k, (sig <= u64_max)%N -> -2147483648 < e <= 0 -> Z.of_nat (length (rest s)) <= isize_max ->
+     (length (rest s) + 34 <= fuel)%nat ->
+     observe (xrun fuel E true NUMFR "parse_decimal_overflow" [XV (VB positive); XV (VInt U64 (Z.of_N sig)); XV (VInt I32 e)] s k) =
+     liftX (parse_decimal_overflow_s E positive sig e s)).
+Proof. exact (@NumFrSrc2.numfr_f32_model_is_translated_source). Qed.
+Print Assumptions C07_long_literal_paths_f32_are_source.
+
+Theorem C07_scratch_independent : forall (E : env) (sp positive : bool) (s : st) (fuel : nat) (k1 k2 : bytes),
+  (forall sig, (sig <= u64_max)%N -> Z.of_nat (length (rest s)) <= isize_max -> (length (rest s) + 44 <= fuel)%nat ->
+     observe (xrun fuel E sp NUMFR "parse_long_integer" [XV (VB positive); XV (VInt U64 (Z.of_N sig))] s k1) =
+     observe (xrun fuel E sp NUMFR "parse_long_integer" [XV (VB positive); XV (VInt U64 (Z.of_N sig))] s k2)) /\
+  (forall sig e, (sig <= u64_max)%N -> -2147483648 < e <= 0 -> Z.of_nat (length (rest s)) <= isize_max ->
+     (length (rest s) + 34 <= fuel)%nat ->
+     observe (xrun fuel E sp NUMFR "parse_decimal_overflow" [XV (VB positive); XV (VInt U64 (Z.of_N sig)); XV (VInt I32 e)] s k1) =
+     observe (xrun fuel E sp NUMFR "parse_decimal_overflow" [XV (VB positive); XV (VInt U64 (Z.of_N sig)); XV (VInt I32 e)] s k2)) /\
+  (forall sig e, (sig <= u64_max)%N -> (3 <= fuel)%nat ->
+     observe (xrun fuel E sp NUMFR "f64_from_parts" [XV (VB positive); XV (VInt U64 (Z.of_N sig)); XV (VInt I32 e)] s k1) =
+     observe (xrun fuel E sp NUMFR "f64_from_parts" [XV (VB positive); XV (VInt U64 (Z.of_N sig)); XV (VInt I32 e)] s k2)) /\
+  (forall zs pe, (length (rest s) + 4 <= fuel)%nat ->
+     observe (xrun fuel E sp NUMFR "parse_exponent_overflow" [XV (VB positive); XV (VB zs); XV (VB pe)] s k1) =
+     observe (xrun fuel E sp NUMFR "parse_exponent_overflow" [XV (VB positive); XV (VB zs); XV (VB pe)] s k2)).
+Proof. exact (@NumFrSrc2.numfr_scratch_independent). Qed.
+Print Assumptions C07_scratch_independent.
+
